@@ -212,7 +212,7 @@ func (w *World) doIter() {
 		}
 		if len(foreign) == 0 {
 			w.ensureForeign()
-			for _, e := range w.Foreign.Values().Slice() {
+			for _, e := range liveSlice(w.Foreign.Values()) {
 				w.Cids[e.GetHash().String()] = e.GetHash()
 				foreign = append(foreign, e.GetHash().String())
 			}
@@ -533,12 +533,16 @@ func (w *World) doBounded() {
 	// with heads equal to the unreferenced entries among them
 	for round := 0; round < r.Choose("bnd-chain", 3); round++ {
 		o := w.pickUp("bnd-other")
-		n2 := r.Choose("bnd-n2", total+5)
+		n2 := r.Choose("bnd-n2", total+6)
 		if o == nil {
 			break
 		}
 		if n2 == total+4 {
 			n2 = math.MaxInt64
+		}
+		unbounded := n2 == total+5 // an ordinary merge into the truncated object
+		if unbounded {
+			n2 = -1
 		}
 		// what this merge brings in: what it reaches from the other log's heads before it meets an entry
 		// the (no longer causally closed) log already holds
@@ -566,11 +570,11 @@ func (w *World) doBounded() {
 		}
 		held := hashSet(c.GetEntries())
 		vals := hashSeq(c.Values())
-		if len(held) > n2 || c.Len() != len(held) {
+		if (!unbounded && len(held) > n2) || c.Len() != len(held) {
 			r.Violate("C16:len", "after a further merge with bound %d the log holds %d entries (Len %d)", n2, len(held), c.Len())
 		}
 		wantN := n2
-		if wantN > len(merged) {
+		if unbounded || wantN > len(merged) {
 			wantN = len(merged)
 		}
 		if len(held) != wantN {
@@ -716,7 +720,7 @@ func (w *World) doByz() {
 		w.lastByz = &byzBatch{src: src, s: s, rcv: rcv}
 	}
 	srcEntries := map[string]iface.IPFSLogEntry{}
-	for _, e := range src.GetEntries().Slice() {
+	for _, e := range liveSlice(src.GetEntries()) {
 		srcEntries[e.GetHash().String()] = e
 	}
 	heads := hashSeq(src.Heads())
@@ -876,7 +880,7 @@ func (w *World) doPolicy() {
 	}
 	src := w.freshBatch(s, batch)
 	srcEntries := map[string]iface.IPFSLogEntry{}
-	for _, e := range src.GetEntries().Slice() {
+	for _, e := range liveSlice(src.GetEntries()) {
 		srcEntries[e.GetHash().String()] = e
 	}
 	cand := w.modelDifference(srcEntries, hashSeq(src.Heads()), rcv.Set)
@@ -989,6 +993,10 @@ func (w *World) doTamper() {
 	if w.Codec == "pb" {
 		viaStore = false
 	}
+	if w.Codec == "cbor" && w.LinkKeyBytes == nil && pick2%5 == 0 {
+		w.tamperLegacy(n, h, kind, pick2, wk)
+		return
+	}
 	if viaStore {
 		// corruption at rest: start from what a reader decodes from the stored block
 		var err error
@@ -1024,6 +1032,52 @@ func (w *World) doTamper() {
 			r.Violate("C07:"+tamperNames[kind], "payload change invisible in the signed JSON (invalid UTF-8 bytes are replaced before signing): %s still verifies", tr.detail)
 		}
 		r.Violate("C07:"+tamperNames[kind], "entry %s with %s still verifies", w.M.Name(h), tr.detail)
+	}
+}
+
+// versionIO: the default codec with a pre-signature step that stamps the entry with a legacy version -
+// the public-API way to a genuinely signed v0/v1 entry (CreateEntryWithIO signs after PreSign, Verify
+// runs the same PreSign).
+type versionIO struct {
+	*cbor.IOCbor
+	v uint64
+}
+
+func (l *versionIO) PreSign(e iface.IPFSLogEntry) (iface.IPFSLogEntry, error) {
+	e = e.Copy()
+	e.SetV(l.v)
+	return e, nil
+}
+
+// tamperLegacy: the single-field corruptions on a genuinely signed entry of a legacy version (scratch
+// store, nothing enters the world).
+func (w *World) tamperLegacy(n *Node, h string, kind, pick, wk int) {
+	r := w.R
+	io := &versionIO{defaultIO(), 1} // (version 0 cannot be written through the CBOR codec at all)
+	src, _ := n.Log.Get(w.Cids[h])
+	tmpl := &entry.Entry{LogID: w.LogID, Payload: src.GetPayload(), Next: append([]cid.Cid{}, src.GetNext()...), Refs: []cid.Cid{},
+		Clock: entry.NewLamportClock(n.W.ID.PublicKey, src.GetClock().GetTime())}
+	e, err := entry.CreateEntryWithIO(w.ctx, NewStore(), n.W.ID, tmpl, nil, io)
+	if err != nil {
+		r.Violate("C07:create-entry", "CreateEntryWithIO with a version-%d pre-signature step failed: %v", io.v, err)
+	}
+	if err := e.Verify(n.W.ID.Provider, io); err != nil {
+		r.Violate("C07:honest-verify", "freshly signed version-%d entry does not verify: %v", io.v, err)
+	}
+	r.Probe("legacy-version-entry")
+	tr := tamper(r, e, kind, src, Writers()[wk].ID.PublicKey)
+	if !tr.applied || tr.invisible || kind == tVersion {
+		return
+	}
+	r.Fault("tamper-" + tamperNames[kind])
+	var verr error
+	out := Protect(func() { verr = tr.e.Verify(n.W.ID.Provider, io) })
+	r.Logf("tamper legacy v%d copy of %s kind=%s (%s) -> verify err=%v", io.v, w.M.Name(h), tamperNames[kind], tr.detail, verr != nil)
+	if out.Status != "ok" {
+		r.Violate("C07:verify-panic", "Verify panicked on a tampered version-%d entry (%s): %s", io.v, tamperNames[kind], out.Msg)
+	}
+	if verr == nil {
+		r.Violate("C07:"+tamperNames[kind], "version-%d entry with %s still verifies", io.v, tr.detail)
 	}
 }
 
@@ -1212,6 +1266,20 @@ func (w *World) doRebuild() {
 	if len(w.M.Heads(n.Set)) > 1 {
 		w.R.Probe("rebuilt-multi-head-log")
 	}
+	if w.R.Choose("rebuild-fork", 3) == 0 {
+		// a second log object built from the very same options value (same entries map): what happens to it
+		// is its own business
+		before := w.observe(n.Log)
+		fork := w.newLog(n.W, o)
+		if e, err := fork.Append(w.ctx, w.payload(), nil); err == nil {
+			w.register(e)
+		}
+		_, strict := w.M.Linear(n.Set, w.ByHash)
+		if d := w.sameObs(before, w.observe(n.Log), strict); d != "" {
+			w.R.Violate(w.P.Prop+":shared-index", "appending to a second log built from the same options value changed replica %d: %s", n.Idx, d)
+		}
+		w.R.Probe("fork-from-the-same-options")
+	}
 	w.R.Logf("rebuild n%d from entries (heads given: %v)", n.Idx, withHeads)
 }
 
@@ -1232,7 +1300,7 @@ func (w *World) doPartial() {
 	var l *ipfslog.IPFSLog
 	var err error
 	w.driven(func(ctx context.Context) {
-		l, err = ipfslog.NewFromEntry(ctx, w.St, src.W.ID, append([]iface.IPFSLogEntry(nil), heads...), w.loadOpts(), &entry.FetchOptions{Concurrency: conc, Length: &lim, ProgressChan: w.curProgress})
+		l, err = ipfslog.NewFromEntry(ctx, w.St, src.W.ID, append([]iface.IPFSLogEntry(nil), heads...), w.loadOpts(), w.fetchOpts(conc, &lim, 0))
 	})
 	if err != nil {
 		r.Violate(w.P.Prop+":load-error", "length-limited load failed with no fault injected: %v", err)
